@@ -886,6 +886,60 @@ def assumption_scan(unit):
     return out
 
 
+
+# ------------------------------------------------------------------------------------------
+# per-unit result cache (accelerator only): the same unit serves several properties; a result that was
+# obtained on the byte-identical verified text (repo sources + every file of the machinery) is reused by the
+# next property's check instead of being recomputed.  Only fully discharged results are cached.
+# ------------------------------------------------------------------------------------------
+_tree_key = None
+
+
+def tree_key():
+    global _tree_key
+    if _tree_key is None:
+        h = hashlib.sha1()
+        for root in (os.path.join(REPO, 'src'), os.path.join(REPO, 'include'), os.path.join(REPO, 'meson.build')):
+            paths = [root] if os.path.isfile(root) else sorted(os.path.join(d, f) for d, _, fs in os.walk(root) for f in fs)
+            for f in paths:
+                h.update(f.encode()); h.update(open(f, 'rb').read())
+        for sub in ('contracts', 'units', 'spec', 'stubs', 'engine'):
+            for d, _, fs in sorted(os.walk(os.path.join(VERIF, sub))):
+                for f in sorted(fs):
+                    if f.endswith(('.h', '.c', '.json', '.py')):
+                        h.update(f.encode()); h.update(open(os.path.join(d, f), 'rb').read())
+        for k in ('VERIF_SOLVER', 'VERIF_CBMC_EXTRA'):
+            h.update(os.environ.get(k, '').encode())
+        _tree_key = h.hexdigest()
+    return _tree_key
+
+
+def run_unit_cached(unit, tier, keep=False):
+    if os.environ.get('VERIF_NO_CACHE'):
+        return run_unit(unit, tier, keep=keep)
+    cdir = os.path.join(VERIF, '.cache')
+    key = hashlib.sha1((unit['name'] + '|' + tier + '|' + tree_key()).encode()).hexdigest()
+    path = os.path.join(cdir, key + '.json')
+    if os.path.exists(path):
+        try:
+            r = json.load(open(path))
+            r['cached'] = True
+            return r
+        except Exception:
+            pass
+    r = run_unit(unit, tier, keep=keep)
+    if r['status'] == 'OK' and r['obligations'] and all(o['status'] == 'SUCCESS' or o.get('unattributed') for o in r['obligations']):
+        try:
+            os.makedirs(cdir, exist_ok=True)
+            slim = dict(r)
+            slim['obligations'] = [dict(o, trace=None) for o in r['obligations']]
+            slim.pop('scratch', None)
+            json.dump(slim, open(path + '.tmp', 'w'))
+            os.replace(path + '.tmp', path)
+        except Exception:
+            pass
+    return r
+
 def check_property(pid, tier, only=None, keep=False):
     t0 = time.time()
     units = [u for u in load_units() if pid in u['properties']]
@@ -918,7 +972,7 @@ def check_property(pid, tier, only=None, keep=False):
     known = [k for k in load_known() if k['property'] == pid]
     nworkers = int(os.environ.get('VERIF_JOBS', '16'))
     with ThreadPoolExecutor(max_workers=nworkers) as pool:
-        results = list(pool.map(lambda u: run_unit(u, tier, keep=keep), units))
+        results = list(pool.map(lambda u: run_unit_cached(u, tier, keep=keep), units))
 
     violations = []
     known_hits = []
@@ -960,6 +1014,7 @@ def check_property(pid, tier, only=None, keep=False):
                  'solver_s': round(r['solver_s'], 2), 'wall_s': round(r['wall_s'], 2),
                  'backend': r.get('backend'), 'covers_satisfied': sum(1 for c in r['covers'] if c['status'] == 'satisfied'),
                  'covers': len(r['covers']), 'status': r['status'], 'why': r['why'][:500],
+                 'reused_from_identical_tree': bool(r.get('cached')),
                  'replaced_callees': u.get('replace', []),
                  'loop_contracts_inserted': len(u.get('loop_contracts', []))}
         cover_total += entry['covers_satisfied']
@@ -1016,7 +1071,7 @@ def check_property(pid, tier, only=None, keep=False):
         'samples': samples,
         'known_findings_open': [{'unit': u['name'], 'key': o['key'], 'what': k.get('what')} for u, o, k in known_hits],
         'undecided': [{'unit': u['name'], 'why': w[:400]} for u, w in undecided],
-        'explanation': 'CBMC 6.11 --dfcc contract enforcement on the real source (wrapper TU includes the real file; loop contracts inserted mechanically into a scratch copy). "obligations"/"discharged" count proof-mode units only; bounded units are listed separately with their bound and are not counted as proved.',
+        'explanation': 'A unit result marked reused_from_identical_tree was computed by an earlier check run on the byte-identical repository sources and verification files (content hash) and not recomputed. CBMC 6.11 --dfcc contract enforcement on the real source (wrapper TU includes the real file; loop contracts inserted mechanically into a scratch copy). "obligations"/"discharged" count proof-mode units only; bounded units are listed separately with their bound and are not counted as proved.',
     }
     if level == 'model_checking' or (all_bounded and bounded_units):
         nb = sum(b['obligations'] for b in bounded_units)
